@@ -207,6 +207,13 @@ def cases(size, seed):
     for a in ('2', '3', '10', '0.5', '1.1', '-2', '-3', '9', '1E10', '1.000000000000000000000000000000001', '0'):
         for b in ('0', '1', '2', '3', '10', '-1', '-2', '0.5', '100', '-100', '1000', '20000', '-20000', '0.1'):
             out.append(('pow', Decimal(a), Decimal(b)))
+    # integral exponents and scales written with trailing fraction zeros (10.00, 100.0, 12.00): the value counts, not the spelling
+    for a in ('2', '3', '1.5', '-2', '10', '0.5'):
+        for b in ('10.0', '10.00', '10.000', '10.0000', '12.00', '100.0', '100.00', '3.0', '3.00', '21.00', '-10.00', '-12.0', '1.20E+1', '120.0E-1', '64.000'):
+            out.append(('pow', Decimal(a), Decimal(b)))
+    for a in ('0.3333333333333333333333333333333333', '99.95', '123456.7890123456789', '-2.5', '1E-20'):
+        for b in ('12.00', '1.0', '1.00', '10.0', '10.00', '2.000', '0.0', '0.00', '-2.00', '-1.0', '1.20E+1', '30.00'):
+            out.append(('round', Decimal(a), Decimal(b)))
     # equal values written with different exponents compare equal (and neither below nor above the other)
     for (a, b) in (('1.00', '1.0'), ('1.0', '1.00'), ('-1.5', '-1.50'), ('-1.50', '-1.5'), ('1E+2', '100'), ('100', '1E+2'), ('100.0', '1E+2'), ('0.0', '0'), ('0', '0E+3'), ('-0', '0'),
                    ('1E-10', '0.0000000001'), ('5E+33', '5000000000000000000000000000000000'), ('1.10', '1.1'), ('1.1', '1.10'), ('1.10', '1.2'), ('1.2', '1.10'), ('-2.50', '-2.5'), ('-2.5', '-2.50')):
